@@ -102,37 +102,54 @@ def run(tier: str, seed: int) -> int:
         with Lock(root + ".lock"):
             build.prepare_root(root)
             decls = det_decls(tier, seed)
-            mods = []
+            files = {}
             for di, (d, cfg) in enumerate(decls):
                 body = d.text("#[derive(Clone, Copy, ::enum_tools::EnumTools)]", cfg.attrs())
-                for k in range(R):
-                    mods.append("pub mod d%02d_%02d {\n%s\n}\n" % (di, k, body))
-            text = "#![allow(dead_code, unreachable_patterns)]\n// nonce %s\n%s" % (time.time_ns(), "\n".join(mods))
+                files[di + 1] = "// nonce %s\n" % time.time_ns() + "".join(
+                    "pub mod r%02d {\n%s\n}\n" % (k, body) for k in range(R))
             records = []
             rounds = (P + 15) // 16
             nproc = 0
             secs = 0.0
+            dropped = {}
+            import glob
+            import json
             for rd in range(rounds):
                 crates = ["det_%02d_%02d" % (rd, i) for i in range(min(16, P - rd * 16))]
-                emit.emit_workspace(root, crates)
-                for c in crates:
-                    cdir = os.path.join(root, c)
-                    write_if_changed(os.path.join(cdir, "Cargo.toml"), crate_manifest(c, {"enum-tools": dep_enum_tools()}))
-                    os.makedirs(os.path.join(cdir, "src"), exist_ok=True)
-                    with open(os.path.join(cdir, "src", "lib.rs"), "w") as fh:
-                        fh.write(text.replace("// nonce", "// nonce %s" % c))
-                os.makedirs(os.path.join(root, "hooklog"), exist_ok=True)
-                args = ["build", "--offline"]
-                for c in crates:
-                    args += ["-p", c]
-                rc, msgs, err, s = build.run_cargo(root, args, env={"ENUM_TOOLS_VERIF_LOG": os.path.join(root, "hooklog")})
-                secs += s
-                if rc != 0:
-                    errs = build.compiler_errors(msgs)
-                    raise Inconclusive("det crates do not build: %s %s" % (
-                        errs[0]["rendered"][:1500] if errs else "", err[-1500:]))
-                import glob
-                import json
+                for attempt in range(3):
+                    emit.emit_workspace(root, crates)
+                    for c in crates:
+                        cdir = os.path.join(root, c)
+                        write_if_changed(os.path.join(cdir, "Cargo.toml"), crate_manifest(c, {"enum-tools": dep_enum_tools()}))
+                        src = os.path.join(cdir, "src")
+                        os.makedirs(src, exist_ok=True)
+                        live = [i for i in files if i not in dropped]
+                        for i in live:
+                            with open(os.path.join(src, "k%06d.rs" % i), "w") as fh:
+                                fh.write(files[i].replace("// nonce", "// nonce %s" % c))
+                        for f in os.listdir(src):
+                            if f.startswith("k") and int(f[1:7]) in dropped:
+                                os.remove(os.path.join(src, f))
+                        with open(os.path.join(src, "lib.rs"), "w") as fh:
+                            fh.write("#![allow(dead_code, unreachable_patterns)]\n" + "".join("pub mod k%06d;\n" % i for i in live))
+                    os.makedirs(os.path.join(root, "hooklog"), exist_ok=True)
+                    for f in glob.glob(os.path.join(root, "hooklog", "*.jsonl")):
+                        os.remove(f)
+                    args = ["build", "--offline", "--keep-going"]
+                    for c in crates:
+                        args += ["-p", c]
+                    rc, msgs, err, s = build.run_cargo(root, args, env={"ENUM_TOOLS_VERIF_LOG": os.path.join(root, "hooklog")})
+                    secs += s
+                    if rc == 0:
+                        break
+                    by_case, rest = build.attribute(build.compiler_errors(msgs))
+                    if not by_case:
+                        raise Inconclusive("det crates do not build: %s %s" % (
+                            rest[0]["rendered"][:1500] if rest else "", err[-1500:]))
+                    # a declaration which does not compile is not C17's business (C10 / C11 report it): drop it
+                    dropped.update(by_case)
+                else:
+                    raise Inconclusive("det crates still do not build after dropping %d declarations" % len(dropped))
                 for f in glob.glob(os.path.join(root, "hooklog", "*.jsonl")):
                     nproc += 1
                     cur = {}
@@ -144,6 +161,7 @@ def run(tier: str, seed: int) -> int:
                         if "begin" in rec and "end" in rec:
                             records.append((rec["begin"]["input"], rec["end"]["output"], rec["begin"]["pid"], rec["begin"]["crate"]))
                     os.remove(f)
+            decls = [dc for i, dc in enumerate(decls) if (i + 1) not in dropped]
         by_input = {}
         for inp, out, pid, crate in records:
             by_input.setdefault(inp, {}).setdefault(out, []).append((pid, crate))
@@ -181,7 +199,10 @@ def run(tier: str, seed: int) -> int:
             "modules_per_process_per_input": R,
             "max_distinct_outputs_per_input": max([len(v) for v in by_input.values()] or [0]),
             "cargo_s": round(secs, 1),
+            "declarations_dropped_because_they_do_not_compile": sorted(dropped),
         }
+        if len(decls) < 2:
+            inconclusive.append("fewer than two declarations compile")
     except Inconclusive as e:
         inconclusive.append(str(e))
     return finish(prop, tier, seed, t0, violations, inconclusive, coverage, [
